@@ -36,7 +36,7 @@ def run(ctx):
                 seen.add(k)
                 uniq.append(t)
         traces = uniq
-        if len(traces) < 100:
+        if len(traces) < 500:
             ctx.fail("too few behaviours generated: %d" % len(traces))
     routers = sorted({t[0]["r"] for t in traces})
     out = ctx.driver(b, ["genesis-replay"], input_obj=traces)
@@ -66,7 +66,7 @@ def run(ctx):
     # router without any guard produces it too (it rewrote identical data).  Where a router also shows a real overwrite, both are
     # the one deviation "no guard" and are reported once, as second-install-overwrites.
     overwriters = {v["r"] for v in verdicts if v["kind"] == "overwrite" and not v["ok"]}
-    for v in verdicts:
+    for v in sorted(verdicts, key=lambda v: (v["kind"] != "overwrite", v["i"])):   # show a real overwrite as the example
         o = obs[v["i"] - 1]
         beh = traces[o["t"]]
         prefix = json.dumps([(s["op"], s["g"]) for s in beh[:o["i"] + 1]])
